@@ -134,6 +134,15 @@ impl Vtx {
             });
         }
 
+        // More than 24 hours of 50 Hz register frames: not a real track, and the size is used
+        // for an allocation before any frame data is decoded
+        const MAX_DECOMPRESSED_FRAMES_SIZE: u32 = 64 * 1024 * 1024;
+        if decompressed_frames_size > MAX_DECOMPRESSED_FRAMES_SIZE {
+            return Err(VtxError::InvalidHeader {
+                message: "Decompressed frames data size is too big",
+            });
+        }
+
         if decompressed_frames_size % AY_REGISTER_COUNT as u32 != 0 {
             return Err(VtxError::InvalidHeader {
                 message: "Invalid decompressed frames data size",
